@@ -321,3 +321,74 @@ Theorem C19_spec_iff_no_whole_deadline : forall whole,
   (forall limit x, exchange_spec limit x (exchange_with whole limit x)) <-> whole = None.
 Proof. exact spec_iff_no_whole_deadline. Qed.
 Print Assumptions C19_spec_iff_no_whole_deadline.
+
+(* ---- the dial timeout in time: an upstream that cannot be reached ---- *)
+
+(* for EVERY limit (zero: never; negative: at once), every upstream - one that completes the connect
+   after any time, or one whose connect never completes (SYNs dropped) - and every status: a connect
+   that does not complete within the configured dial timeout is answered 504 within that time, an
+   upstream that connects in time is served with its own status at its own time (dial_time_spec /
+   dial_late are declarative; dial_at dial_attempts_of_proxy is the transport's single call of the
+   configured net.Dialer) *)
+Theorem C19_dial_at_meets_spec : forall limit c st,
+  dial_time_spec limit c st (dial_at dial_attempts_of_proxy limit c st).
+Proof. exact dial_at_meets_spec. Qed.
+Print Assumptions C19_dial_at_meets_spec.
+
+(* the same on the CONFIGURED dial timeout for the transport main()'s start-up and the proxy's choice
+   hand every target to *)
+Theorem C19_end_to_end_dial_at : forall s0 cfg tgs i tg c st,
+  nth_error tgs i = Some tg ->
+  exists t, chosen (main_start set_config s0 cfg tgs) i = Some t /\
+    dial_time_spec (l_dial cfg) c st (dial_at dial_attempts_of_proxy (t_dial t) c st).
+Proof. exact end_to_end_dial_at. Qed.
+Print Assumptions C19_end_to_end_dial_at.
+
+(* links the timed model to [dial]: same status whenever the upstream can be reached at all *)
+Theorem C19_dial_at_status_is_dial : forall k limit t st,
+  option_map fst (dial_at k limit (Connects t) st) = Some (dial limit t st).
+Proof. exact dial_at_status_is_dial. Qed.
+Print Assumptions C19_dial_at_status_is_dial.
+
+(* a connect that runs into a positive limit is answered within the limit exactly when the dialer is
+   called once *)
+Theorem C19_dial_within_limit_iff_single_attempt : forall k limit c st,
+  0 < limit -> dial_late limit c -> 1 <= k ->
+  exists t, dial_at k limit c st = Some (504, t) /\ (t <= limit <-> k = 1).
+Proof. exact dial_within_limit_iff_single_attempt. Qed.
+Print Assumptions C19_dial_within_limit_iff_single_attempt.
+
+(* about a HYPOTHETICAL dialer wrapper that connects a second time after a failed connect (what one of
+   the seeded changes adds), not about /repo: the client of an unreachable upstream is held for twice
+   the configured dial timeout *)
+Theorem C19_dial_second_attempt_refuted : exists limit st,
+  dial_late limit Unreachable /\ dial_at 2 limit Unreachable st = Some (504, 2 * limit) /\
+  ~ dial_time_spec limit Unreachable st (dial_at 2 limit Unreachable st).
+Proof. exact dial_second_attempt_refuted. Qed.
+Print Assumptions C19_dial_second_attempt_refuted.
+
+(* ... and no number of attempts other than one would do *)
+Theorem C19_dial_spec_iff_single_attempt : forall k, 1 <= k ->
+  ((forall limit c st, dial_time_spec limit c st (dial_at k limit c st)) <-> k = 1).
+Proof. exact dial_spec_iff_single_attempt. Qed.
+Print Assumptions C19_dial_spec_iff_single_attempt.
+
+(* non-vacuity: unreachable under 2000 (504 at 2000), under a negative limit (504 at once), reachable
+   after 3 (served), a slow connect (504 at 2000), no limit (held), and the unreachable upstream behind
+   each kind of target after main()'s start-up *)
+Theorem C19_dial_at_nonvacuous :
+  let cfg := {| l_rht := 300; l_idle := 15; l_maxconn := 100; l_dial := 2000; l_keepalive := 7 |} in
+  let plain := {| tg_host := []; tg_dst_https := false; tg_proto := []; tg_skip := false |} in
+  let skipv := {| tg_host := bs "dst"%string; tg_dst_https := true; tg_proto := []; tg_skip := true |} in
+  let over := {| tg_host := bs "upstream.example"%string; tg_dst_https := true; tg_proto := []; tg_skip := true |} in
+  let px := main_start set_config init_state cfg [plain; skipv; over] in
+  dial_late 2000 Unreachable /\ dial_late (-1) Unreachable /\ ~ dial_late 2000 (Connects 3) /\ dial_late 2000 (Connects 2500) /\
+  dial_at dial_attempts_of_proxy 2000 Unreachable 200 = Some (504, 2000) /\
+  dial_at dial_attempts_of_proxy (-1) Unreachable 200 = Some (504, 0) /\
+  dial_at dial_attempts_of_proxy 2000 (Connects 3) 200 = Some (200, 3) /\
+  dial_at dial_attempts_of_proxy 2000 (Connects 2500) 200 = Some (504, 2000) /\
+  dial_at dial_attempts_of_proxy 0 Unreachable 200 = None /\
+  map (fun i => option_map (fun t => dial_at dial_attempts_of_proxy (t_dial t) Unreachable 200) (chosen px i)) [0%nat; 1%nat; 2%nat] =
+    [Some (Some (504, 2000)); Some (Some (504, 2000)); Some (Some (504, 2000))].
+Proof. exact dial_at_nonvacuous. Qed.
+Print Assumptions C19_dial_at_nonvacuous.
